@@ -24,7 +24,8 @@ sh(f"git -C {wt} checkout -- stackscope")
 assert "52 passed" in tests, tests
 assert r1.returncode != 0, "demo passes with the change"
 out = f"/verif/seeded/{sid}"
-os.makedirs(out, exist_ok=True)
+assert not os.path.exists(out), f"seed id {sid} exists already: choose another id (an earlier seed would be overwritten)"
+os.makedirs(out)
 shutil.copy(diff, f"{out}/patch.diff")
 shutil.copy(demo, f"{out}/demo.py")
 det = {}
